@@ -90,6 +90,12 @@ impl Outcome {
     pub fn unresolved(why: &str) -> Self {
         Self::new(OutKind::Unresolved, "unresolved", why.to_string())
     }
+    /// a simulated predicate failure (kernel seam) fired during this call. The library treats a
+    /// failing predicate as "inconclusive" in its Delaunay verification by design, so a call
+    /// that absorbed one is not held to the Delaunay clauses (it is to all the others).
+    pub fn predicate_failure_absorbed(&self) -> bool {
+        self.fired.iter().any(|(s, _)| crate::kfault::is_kernel_site(s))
+    }
     pub fn failed(&self) -> bool {
         matches!(self.kind, OutKind::Err | OutKind::Skipped)
     }
@@ -223,9 +229,13 @@ where
     delaunay::verif::knob::set_all(&plan.knobs);
     delaunay::verif::uuid::seed(Some(plan.uuid_seed));
     delaunay::verif::tick::reset(if plan.tick_limit == 0 { u64::MAX } else { plan.tick_limit });
-    delaunay::verif::fail::begin(&plan.faults);
+    let lib_faults = crate::kfault::begin(&plan.faults);
+    delaunay::verif::fail::begin(&lib_faults);
     let res = catch_unwind(AssertUnwindSafe(f));
-    let (counts, fired, trace) = delaunay::verif::fail::end();
+    let (mut counts, mut fired, trace) = delaunay::verif::fail::end();
+    let (kcounts, kfired) = crate::kfault::end();
+    counts.extend(kcounts);
+    fired.extend(kfired);
     let ticks = delaunay::verif::tick::total();
     let tick_kinds = own(delaunay::verif::tick::by_kind());
     delaunay::verif::tick::reset(u64::MAX);
